@@ -3,6 +3,7 @@ Helper lemmas for the C33 theorems (printer model).
 -/
 import RsassModel.Color.Fmt
 import RsassModel.Color.LemmasWF
+import RsassModel.Color.LemmasFn
 namespace Color
 
 theorem lookup_all {κ β : Type} [BEq κ] [LawfulBEq κ] (l : List (κ × β)) (p : κ × β → Bool)
@@ -44,5 +45,114 @@ theorem readHex3 (a b c : Char) (va vb vc : Nat)
     readHex ['#', a, b, c] = some (va * 17, vb * 17, vc * 17) := by
   unfold readHex
   simp only [ha, hb, hc]
+
+/-- `try_bytes::byte`: an accepted channel is within 1e-7 of the byte it is printed as -/
+theorem tryByte_close (v : Rat) (n : Nat) (h0 : 0 ≤ v) (h1 : v ≤ 255) (h : tryByte v = some n) :
+    CExtra.abs ((CExtra.ofNat n : Rat) - v) < (CExtra.small : Rat) ∧ n ≤ 255 := by
+  unfold tryByte at h
+  split at h
+  · rename_i hc
+    simp only [Option.some.injEq] at h
+    have rr := round_range v 255 h0 (by exact_mod_cast h1)
+    have e : (CExtra.round v : Rat) = ((ratRound v : Int) : Rat) := rfl
+    have k0 : 0 ≤ ratRound v := by
+      have := rr.1; rw [e] at this; exact_mod_cast this
+    have k1 : ratRound v ≤ 255 := by
+      have := rr.2; rw [e] at this; exact_mod_cast this
+    have tb : CExtra.toByte (CExtra.round v : Rat) = (ratRound v).toNat := by
+      show min ((((ratRound v : Int) : Rat)).floor.toNat) 255 = (ratRound v).toNat
+      rw [Rat.floor_intCast]; omega
+    rw [tb] at h
+    subst h
+    have cast : ((CExtra.ofNat (ratRound v).toNat : Rat)) = ((ratRound v : Int) : Rat) := by
+      show (((ratRound v).toNat : Nat) : Rat) = ((ratRound v : Int) : Rat)
+      have : (((ratRound v).toNat : Nat) : Int) = ratRound v := Int.toNat_of_nonneg k0
+      exact_mod_cast this
+    constructor
+    · rw [cast, ← e]; exact hc
+    · omega
+  · simp at h
+
+
+/-- the reference reading of any of the byte notations is the byte triple, opaque -/
+theorem decode_hex6 (r g b : Nat) :
+    decodeTok (Tok.hex6 r g b : Tok Rat) = some (CExtra.ofNat r, CExtra.ofNat g, CExtra.ofNat b, 1) := rfl
+
+theorem decode_rgbBytes (r g b : Nat) :
+    decodeTok (Tok.rgbBytes r g b : Tok Rat) = some (CExtra.ofNat r, CExtra.ofNat g, CExtra.ofNat b, 1) := rfl
+
+theorem decode_hex3 (r g b : Nat) (sr : r % 17 = 0) (sg : g % 17 = 0) (sb : b % 17 = 0) :
+    decodeTok (Tok.hex3 (r / 17) (g / 17) (b / 17) : Tok Rat)
+      = some (CExtra.ofNat r, CExtra.ofNat g, CExtra.ofNat b, 1) := by
+  have e : ∀ n : Nat, n % 17 = 0 → n / 17 * 17 = n := by intro n h; omega
+  simp only [decodeTok, e r sr, e g sg, e b sb]
+
+/-- a name emitted for bytes `(r, g, b)` reads back (through the CSS list) to those bytes, provided
+the emitted-name table agrees with CSS (theorem `colorNames_match_css_v2n`, re-checked every run) -/
+theorem decode_name (r g b : Nat) (n : List Char) (hr : r < 256) (hg : g < 256) (hb : b < 256)
+    (tbl : Generated.v2n.all (fun p => cssNames.lookup p.2 == some p.1 && decide (p.1 < 16777216)) = true)
+    (h : nameOfBytes r g b = some n) :
+    decodeTok (Tok.name n : Tok Rat) = some (CExtra.ofNat r, CExtra.ofNat g, CExtra.ofNat b, 1) := by
+  have := lookup_all _ _ tbl _ _ h
+  simp only [Bool.and_eq_true, beq_iff_eq, decide_eq_true_eq] at this
+  have e1 : (r * 65536 + g * 256 + b) / 65536 = r := by omega
+  have e2 : (r * 65536 + g * 256 + b) / 256 % 256 = g := by omega
+  have e3 : (r * 65536 + g * 256 + b) % 256 = b := by omega
+  simp only [decodeTok, this.1, e1, e2, e3]
+
+theorem bytesTok_decode (comp : Bool) (src : RgbFormat) (hs : src ≠ .shortHex) (r g b : Nat)
+    (hr : r < 256) (hg : g < 256) (hb : b < 256)
+    (tbl : Generated.v2n.all (fun p => cssNames.lookup p.2 == some p.1 && decide (p.1 < 16777216)) = true) :
+    decodeTok (bytesTok comp src r g b : Tok Rat)
+      = some (CExtra.ofNat r, CExtra.ofNat g, CExtra.ofNat b, 1) := by
+  unfold bytesTok
+  simp only []
+  by_cases sh : (r % 17 == 0 && g % 17 == 0 && b % 17 == 0) = true
+  · have sh' := sh
+    simp only [Bool.and_eq_true, beq_iff_eq] at sh'
+    obtain ⟨⟨sr, sg⟩, sb⟩ := sh'
+    simp only [sh, if_true]
+    cases comp
+    · simp only [Bool.false_eq_true, if_false]
+      cases src with
+      | longHex => exact decode_hex6 r g b
+      | shortHex => exact absurd rfl hs
+      | name =>
+        cases hn : nameOfBytes r g b with
+        | none => exact decode_hex6 r g b
+        | some n => exact decode_name r g b n hr hg hb tbl hn
+      | rgb => exact decode_rgbBytes r g b
+    · simp only [if_true]
+      cases hn : nameOfBytes r g b with
+      | none => exact decode_hex3 r g b sr sg sb
+      | some n =>
+        simp only []
+        split
+        · exact decode_name r g b n hr hg hb tbl hn
+        · exact decode_hex3 r g b sr sg sb
+  · simp only [sh, Bool.false_eq_true, if_false]
+    cases comp
+    · simp only [Bool.false_eq_true, if_false]
+      cases src with
+      | longHex => exact decode_hex6 r g b
+      | shortHex => exact absurd rfl hs
+      | name =>
+        cases hn : nameOfBytes r g b with
+        | none => exact decode_hex6 r g b
+        | some n => exact decode_name r g b n hr hg hb tbl hn
+      | rgb => exact decode_rgbBytes r g b
+    · simp only [if_true]
+      cases hn : nameOfBytes r g b with
+      | none => exact decode_hex6 r g b
+      | some n =>
+        simp only []
+        split
+        · exact decode_name r g b n hr hg hb tbl hn
+        · exact decode_hex6 r g b
+
+
+theorem Hsla.toRgba_src (c : Hsla Rat) : c.toRgba.src = .name := by
+  unfold Hsla.toRgba; simp only []; split <;> rfl
+
 
 end Color
